@@ -53,11 +53,16 @@ import (
 	"go/types"
 	"path/filepath"
 	"sort"
+	"strconv"
 	"strings"
 )
 
 var gosm4Targets = []string{"tau", "transTPrime", "ss", "ssX2", "cryptoBlock", "cryptoBlockX2",
-	"byte16ToUint32", "expandKey", "newCipherGeneric", "newCipher", "NewCipher"}
+	"byte16ToUint32", "expandKey", "newCipherGeneric", "newCipher", "NewCipher",
+	"Encrypt", "Decrypt", "encryptX2", "decryptX2"}
+
+// methods translated (the receiver *sm4Cipher becomes the first parameter)
+var gosm4Methods = map[string]bool{"Encrypt": true, "Decrypt": true}
 
 type s4Param struct {
 	name   string
@@ -74,6 +79,7 @@ type s4Sig struct {
 	params  []*s4Param
 	result  string // Lean type of the Go result ("" = none)
 	outcome bool
+	guarded bool // starts with `if len(x) < K { panic("...") }` guards: the Lean result is `Res T`
 	done    bool
 }
 
@@ -163,6 +169,17 @@ func (t *s4Tr) leanType(pos token.Pos, ty types.Type) (lean, kind string, n int6
 		if a, ok := u.Elem().Underlying().(*types.Array); ok {
 			return "List " + t.leanElem(pos, a.Elem()), "parr", a.Len()
 		}
+		if named, ok := u.Elem().(*types.Named); ok {
+			if st, ok := named.Underlying().(*types.Struct); ok {
+				for i := 0; i < st.NumFields(); i++ {
+					if _, ok := st.Field(i).Type().Underlying().(*types.Array); !ok {
+						t.fail(pos, "struct %s has a non-array field", named.Obj().Name())
+					}
+				}
+				t.structs[named.Obj().Name()] = true
+				return named.Obj().Name(), "pstruct", 0
+			}
+		}
 	}
 	t.fail(pos, "unsupported type %s", ty)
 	return
@@ -194,7 +211,9 @@ type s4Fn struct {
 	byteB     map[string]string // word variables currently holding `0xff & e`: the bound lemma
 	locArr    map[string]int64  // local arrays: length
 	locStruct map[string]string
-	written   []*s4Param // parameters written so far (aliasing discipline)
+	written   []*s4Param       // parameters written so far (aliasing discipline)
+	guard     map[string]int64 // slice parameters: the length the guards at the top of the function establish
+	reslice   bool             // the function reslices `x[:K]` (capacity remark in the doc of `_pre`)
 	lines     []string
 	ret       string
 }
@@ -323,7 +342,7 @@ func paren(s string, prec, min int) string {
 
 // noteRead enforces the aliasing discipline for a read of parameter p
 func (c *s4Fn) noteRead(pos token.Pos, p *s4Param) {
-	if p.kind == "word" {
+	if p.kind == "word" || p.kind == "pstruct" {
 		return
 	}
 	for _, w := range c.written {
@@ -426,6 +445,9 @@ func (c *s4Fn) sliceArg(e ast.Expr, minLen int64) (lean string, base *ast.Ident,
 		}
 		if p != nil {
 			c.needLen(p, b)
+			if p.kind == "slice" && x.Low == nil {
+				c.reslice = true
+			}
 		}
 		return fmt.Sprintf("slice %s %d %d", id.Name, a, b), id, a
 	}
@@ -765,8 +787,26 @@ func (c *s4Fn) lvalueArg(e ast.Expr, formal *s4Param) (arg string, key string, b
 		}
 	case *ast.SliceExpr:
 		id, ok := x.X.(*ast.Ident)
+		if ok && x.Low == nil && x.High != nil && !x.Slice3 {
+			// window `p[:K]` of a written slice parameter: the callee's result replaces the first K elements
+			p := c.params[id.Name]
+			if p == nil || p.kind != "slice" || !p.out || formal.kind != "slice" {
+				t.fail(e.Pos(), "written argument %s[:K]: %s is not a written slice parameter of the caller", id.Name, id.Name)
+			}
+			k := c.mustInt(x.High, "slice bound")
+			if k < formal.need {
+				t.fail(e.Pos(), "%s[:%d] shorter than the %d elements the callee needs", id.Name, k, formal.need)
+			}
+			c.needLen(p, k)
+			c.reslice = true
+			c.noteWrite(p)
+			key := fmt.Sprintf("%s_lo%d", id.Name, k)
+			return fmt.Sprintf("slice %s 0 %d", id.Name, k), key, func(res string) {
+				c.emit("let %s := spliceLo %s %d %s", id.Name, id.Name, k, res)
+			}
+		}
 		if !ok || x.Low != nil || x.High != nil || x.Slice3 {
-			t.fail(e.Pos(), "written argument must be a whole slice `a[:]`")
+			t.fail(e.Pos(), "written argument must be a whole slice `a[:]` or a prefix `a[:K]`")
 		}
 		if n, ok := c.locArr[id.Name]; ok {
 			if n < formal.need {
@@ -803,6 +843,32 @@ func (c *s4Fn) lvalueArg(e ast.Expr, formal *s4Param) (arg string, key string, b
 	return
 }
 
+// fieldArg: `&s.f` for a pointer-to-struct parameter s, passed for a read-only *[n]T parameter
+func (c *s4Fn) fieldArg(a ast.Expr, f *s4Param) (string, bool) {
+	u, ok := a.(*ast.UnaryExpr)
+	if !ok || u.Op != token.AND {
+		return "", false
+	}
+	sel, ok := u.X.(*ast.SelectorExpr)
+	if !ok {
+		return "", false
+	}
+	id, ok := sel.X.(*ast.Ident)
+	if !ok || c.params[id.Name] == nil || c.params[id.Name].kind != "pstruct" {
+		return "", false
+	}
+	arr, ok := c.t.typeOf(sel).Underlying().(*types.Array)
+	if !ok || arr.Len() != f.arrLen || !types.Identical(arr.Elem(), elemOf(f.typ)) {
+		c.t.fail(a.Pos(), "field %s.%s does not match the callee's array parameter", id.Name, sel.Sel.Name)
+	}
+	for _, w := range c.written {
+		if types.Identical(elemOf(w.typ), arr.Elem()) {
+			c.t.fail(a.Pos(), "function %s reads %s.%s after writing %s (they may alias)", c.sig.name, id.Name, sel.Sel.Name, w.name)
+		}
+	}
+	return id.Name + "." + sel.Sel.Name, true
+}
+
 func (c *s4Fn) callStmt(x *ast.CallExpr) {
 	t := c.t
 	if name := c.binaryCall(x); name == "PutUint32" {
@@ -826,8 +892,8 @@ func (c *s4Fn) callStmt(x *ast.CallExpr) {
 		t.fail(x.Pos(), "unsupported call statement")
 	}
 	sig := t.sigOf(x.Pos(), id.Name)
-	if sig.result != "" || sig.outcome {
-		t.fail(x.Pos(), "result of %s discarded", id.Name)
+	if sig.result != "" || sig.outcome || sig.guarded {
+		t.fail(x.Pos(), "result of %s discarded / call of a function that may panic", id.Name)
 	}
 	if len(x.Args) != len(sig.params) {
 		t.fail(x.Pos(), "arity of %s", id.Name)
@@ -854,6 +920,10 @@ func (c *s4Fn) callStmt(x *ast.CallExpr) {
 			}
 			texts[i] = paren(s, boolPrec(strings.Contains(s, " ")), s4Atom)
 		case "parr":
+			if txt, ok := c.fieldArg(a, f); ok {
+				texts[i] = txt
+				continue
+			}
 			aid, ok := a.(*ast.Ident)
 			p := (*s4Param)(nil)
 			if ok {
@@ -1205,6 +1275,75 @@ func (c *s4Fn) returnStmt(s *ast.ReturnStmt) {
 	c.ret = r
 }
 
+// guardStmt: `if len(x) < K { panic("literal") }` for a slice parameter x and a translation-time K
+func (c *s4Fn) guardStmt(s *ast.IfStmt) {
+	t := c.t
+	if s.Init != nil {
+		t.fail(s.Pos(), "guard with an init statement")
+	}
+	if s.Else != nil {
+		t.fail(s.Else.Pos(), "guard with an else branch")
+	}
+	cond, ok := s.Cond.(*ast.BinaryExpr)
+	if !ok || cond.Op != token.LSS {
+		t.fail(s.Cond.Pos(), "unsupported guard condition (only `len(x) < K`)")
+	}
+	call, ok := cond.X.(*ast.CallExpr)
+	var pid *ast.Ident
+	if ok && len(call.Args) == 1 {
+		if fn, ok := call.Fun.(*ast.Ident); ok && fn.Name == "len" {
+			if _, isB := t.info.Uses[fn].(*types.Builtin); isB {
+				pid, _ = call.Args[0].(*ast.Ident)
+			}
+		}
+	}
+	if pid == nil || c.params[pid.Name] == nil || c.params[pid.Name].kind != "slice" {
+		t.fail(s.Cond.Pos(), "unsupported guard condition (only `len(x) < K` for a slice parameter x)")
+	}
+	k := c.mustInt(cond.Y, "guard bound")
+	if k < 0 {
+		t.fail(cond.Y.Pos(), "negative guard bound")
+	}
+	ktxt := fmt.Sprint(k)
+	if id, ok := cond.Y.(*ast.Ident); ok && c.isPkgLevel(id) {
+		t.consts[id.Name] = true
+		ktxt = "Gen.SM4Const." + id.Name
+	}
+	if len(s.Body.List) != 1 {
+		t.fail(s.Body.Pos(), "the body of a guard must be a single panic(\"...\")")
+	}
+	es, ok := s.Body.List[0].(*ast.ExprStmt)
+	var pc *ast.CallExpr
+	if ok {
+		pc, _ = es.X.(*ast.CallExpr)
+	}
+	if pc == nil || len(pc.Args) != 1 {
+		t.fail(s.Body.List[0].Pos(), "the body of a guard must be a single panic(\"...\")")
+	}
+	if fn, ok := pc.Fun.(*ast.Ident); !ok || fn.Name != "panic" {
+		t.fail(pc.Pos(), "the body of a guard must be a single panic(\"...\")")
+	} else if _, isB := t.info.Uses[fn].(*types.Builtin); !isB {
+		t.fail(pc.Pos(), "panic is not the builtin")
+	}
+	lit, ok := pc.Args[0].(*ast.BasicLit)
+	if !ok || lit.Kind != token.STRING {
+		t.fail(pc.Args[0].Pos(), "panic argument is not a string literal")
+	}
+	msg, err := strconv.Unquote(lit.Value)
+	if err != nil {
+		t.fail(lit.Pos(), "cannot read the string literal")
+	}
+	for _, r := range msg {
+		if r < 0x20 || r > 0x7e || r == '"' || r == '\\' {
+			t.fail(lit.Pos(), "panic message outside printable ASCII without quotes / backslashes")
+		}
+	}
+	if g, ok := c.guard[pid.Name]; !ok || k > g {
+		c.guard[pid.Name] = k
+	}
+	c.emit("if %s.length < %s then .panic \"%s\" else", pid.Name, ktxt, msg)
+}
+
 // struct literal `v := T{}` in outcome functions
 func (c *s4Fn) structInit(s *ast.AssignStmt) bool {
 	t := c.t
@@ -1298,14 +1437,25 @@ func (t *s4Tr) sigOf(pos token.Pos, name string) *s4Sig {
 
 func (t *s4Tr) fn(fd *ast.FuncDecl) {
 	name := fd.Name.Name
-	if fd.Recv != nil || fd.Body == nil {
-		t.fail(fd.Pos(), "%s: methods / bodiless functions are not translated", name)
+	if fd.Body == nil {
+		t.fail(fd.Pos(), "%s: bodiless functions are not translated", name)
 	}
 	sig := &s4Sig{name: name}
 	t.sigs[name] = sig
 	c := &s4Fn{t: t, fd: fd, sig: sig, params: map[string]*s4Param{}, env: map[string]int64{}, natVars: map[string]bool{},
-		byteB: map[string]string{}, locArr: map[string]int64{}, locStruct: map[string]string{}}
-	for _, f := range fd.Type.Params.List {
+		byteB: map[string]string{}, locArr: map[string]int64{}, locStruct: map[string]string{}, guard: map[string]int64{}}
+	fields := fd.Type.Params.List
+	if fd.Recv != nil {
+		// the receiver is the first parameter; only pointer-to-struct receivers (leanType kind "pstruct")
+		if len(fd.Recv.List) != 1 || len(fd.Recv.List[0].Names) != 1 {
+			t.fail(fd.Pos(), "%s: unsupported receiver", name)
+		}
+		if _, kind, _ := t.leanType(fd.Recv.Pos(), t.typeOf(fd.Recv.List[0].Type)); kind != "pstruct" {
+			t.fail(fd.Recv.Pos(), "%s: receiver is not a pointer to a struct", name)
+		}
+		fields = append([]*ast.Field{fd.Recv.List[0]}, fields...)
+	}
+	for _, f := range fields {
 		ty := t.typeOf(f.Type)
 		lean, kind, n := t.leanType(f.Pos(), ty)
 		if kind == "array" {
@@ -1381,7 +1531,18 @@ func (t *s4Tr) fn(fd *ast.FuncDecl) {
 			t.fail(fd.Pos(), "%s: no return", name)
 		}
 	} else {
-		c.stmts(fd.Body.List)
+		body := fd.Body.List
+		// guards `if len(x) < K { panic("literal") }` at the top of a function without results
+		for len(body) > 0 && sig.result == "" {
+			ifs, ok := body[0].(*ast.IfStmt)
+			if !ok {
+				break
+			}
+			c.guardStmt(ifs)
+			sig.guarded = true
+			body = body[1:]
+		}
+		c.stmts(body)
 	}
 	var outs []string
 	for _, p := range sig.params {
@@ -1409,6 +1570,10 @@ func (t *s4Tr) fn(fd *ast.FuncDecl) {
 		} else {
 			c.ret = "(" + strings.Join(outs, ", ") + ")"
 		}
+		if sig.guarded {
+			retTy = "Res (" + retTy + ")"
+			c.ret = ".ok " + c.ret
+		}
 	}
 	if c.ret == "" {
 		t.fail(fd.Pos(), "%s: no return value", name)
@@ -1419,7 +1584,16 @@ func (t *s4Tr) fn(fd *ast.FuncDecl) {
 		ps = append(ps, fmt.Sprintf("(%s : %s)", p.name, p.lean))
 		switch p.kind {
 		case "slice":
+			if g, ok := c.guard[p.name]; ok && p.need <= g {
+				continue // established by the guard
+			}
 			pre = append(pre, fmt.Sprintf("%d ≤ %s.length", p.need, p.name))
+			preArgs = append(preArgs, fmt.Sprintf("(%s : %s)", p.name, p.lean))
+		case "pstruct":
+			st := p.typ.Underlying().(*types.Pointer).Elem().Underlying().(*types.Struct)
+			for i := 0; i < st.NumFields(); i++ {
+				pre = append(pre, fmt.Sprintf("%s.%s.length = %d", p.name, st.Field(i).Name(), st.Field(i).Type().Underlying().(*types.Array).Len()))
+			}
 			preArgs = append(preArgs, fmt.Sprintf("(%s : %s)", p.name, p.lean))
 		case "parr":
 			pre = append(pre, fmt.Sprintf("%s.length = %d", p.name, p.arrLen))
@@ -1428,6 +1602,12 @@ func (t *s4Tr) fn(fd *ast.FuncDecl) {
 	}
 	pos := t.fset.Position(fd.Pos())
 	doc := fmt.Sprintf("`%s` (%s:%d)", name, filepath.Base(pos.Filename), pos.Line)
+	if fd.Recv != nil {
+		doc += ", method: the receiver is the first parameter"
+	}
+	if sig.guarded {
+		doc += "; `.panic msg` = the guard's `panic(msg)`"
+	}
 	if len(outs) > 0 {
 		doc += "; returns the written parameter(s) " + strings.Join(outs, ", ")
 		if len(outs) > 1 {
@@ -1443,8 +1623,20 @@ func (t *s4Tr) fn(fd *ast.FuncDecl) {
 		return true
 	})
 	// (a function with a branch gets no `_pre`: the requirement computed here ignores the guard)
-	if len(pre) > 0 && !hasIf {
-		fmt.Fprintf(sb, "/-- lengths under which every run-time bounds check of `%s` succeeds: all indices and slice bounds are\n    constants, the translator has collected the largest per slice parameter; `len = n` is the encoding invariant of a\n    `*[n]T` parameter -/\ndef %s_pre %s : Prop :=\n  %s\n\n", name, name, strings.Join(preArgs, " "), strings.Join(pre, " ∧ "))
+	if len(pre) > 0 && (!hasIf || sig.guarded) {
+		extra := ""
+		for _, p := range sig.params {
+			if p.kind == "pstruct" {
+				extra = " / of the `[n]T` fields of `" + p.name + "`"
+			}
+		}
+		if sig.guarded {
+			extra += "; lengths established by the guards of the function are not repeated here"
+		}
+		if c.reslice {
+			extra += ";\n    Go's `x[:K]` needs K ≤ cap(x) — lists have no capacity: K ≤ len(x) is required here (or established by a guard),\n    under which `x[:K]` is `take K` and a callee's writes to it replace the first K elements (`spliceLo`)"
+		}
+		fmt.Fprintf(sb, "/-- lengths under which every run-time bounds check of `%s` succeeds: all indices and slice bounds are\n    constants, the translator has collected the largest per slice parameter; `len = n` is the encoding invariant of a\n    `*[n]T` parameter%s -/\ndef %s_pre %s : Prop :=\n  %s\n\n", name, extra, name, strings.Join(preArgs, " "), strings.Join(pre, " ∧ "))
 	}
 	fmt.Fprintf(sb, "/-- %s -/\ndef %s %s : %s :=\n", doc, name, strings.Join(ps, " "), retTy)
 	for _, l := range c.lines {
@@ -1485,7 +1677,7 @@ func genGoSM4Text() []byte {
 		tables: map[string]int64{}, consts: map[string]bool{}, structs: map[string]bool{}}
 	for _, f := range files {
 		for _, d := range f.Decls {
-			if fd, ok := d.(*ast.FuncDecl); ok && fd.Recv == nil {
+			if fd, ok := d.(*ast.FuncDecl); ok && (fd.Recv == nil || gosm4Methods[fd.Name.Name]) {
 				if _, dup := t.funcs[fd.Name.Name]; dup {
 					s4Die("%s: function %s declared twice", fset.Position(fd.Pos()), fd.Name.Name)
 				}
